@@ -18,7 +18,9 @@ CONSTANTS GKeys,      \* the keys that vary in this instance
           ReadAccs,   \* accessors read in every state
           RegReads,   \* subset of RegKeys read through a registry
           Base0, Bases,   \* BASE_DIR values (Base0 initially)
-          Rich        \* TRUE: the larger value domains (thorough tier)
+          Rich,       \* TRUE: the larger value domains (thorough tier)
+          CompReads,  \* TRUE: get_component_dirs() is read in every state
+          FS, Apps    \* the world of get_component_dirs: existing directories, app roots
 
 Bools == {B(TRUE), B(FALSE)}
 ValsOf(k) ==
@@ -29,9 +31,11 @@ ValsOf(k) ==
     [] k = "template_cache_size" -> {I(0), I(2), I(150), NoneV} \cup (IF Rich THEN {I(1), I(128)} ELSE {})
     [] k = "dynamic_component_name" -> {S("dynamic"), S("vfx_dyn")} \cup (IF Rich THEN {S("Dyn2")} ELSE {})
     [] k = "cache" -> {NoneV, S("vfx-alt")}
-    [] k = "dirs" -> {L(<<>>), L(<<"/vfx/a">>), L(<<"path:/vfx/a", "/vfx/b">>)}
-                     \cup (IF Rich THEN {L(<<"tuple:pre:/vfx/a">>)} ELSE {})
-    [] k = "app_dirs" -> {L(<<>>), L(<<"vfx_comps">>)}
+    \* "/S" = the harness's sandbox: /S/d1, /S/d2 exist, /S/missing does not, /S/file.txt is a file
+    [] k = "dirs" -> {L(<<>>), L(<<"/S/d1">>), L(<<"path:/S/d1", "/S/missing">>),
+                      L(<<"tuple:pre:/S/d2", "/S/file.txt">>), L(<<"rel/d">>)}
+                     \cup (IF Rich THEN {L(<<"path:/S/missing">>), L(<<"/S/d2", "tuple:p:rel">>)} ELSE {})
+    [] k = "app_dirs" -> {L(<<>>), L(<<"ui">>), L(<<"components", "nope">>)}
     [] k = "libraries" -> {L(<<>>), L(<<"vfx.lib1", "vfx.lib2">>)}
     [] k = "static_files_allowed" -> {L(<<>>), L(<<".js", "re:min">>)}
     [] k = "static_files_forbidden" -> {L(<<>>), L(<<".x">>), L(<<".py", "re:any">>)}
@@ -67,7 +71,7 @@ MCInit == SInit /\ base = Base0 /\ last = NoCall
 \* With VIEW View every settings state is expanded exactly once, so every transition of the
 \* settings graph is generated - and exported - exactly once.
 Step(act, c) ==
-  LET mut == c.op \notin {"read", "regread"} IN
+  LET mut == c.op \notin {"read", "regread", "compdirs"} IN
   /\ act /\ last' = c
   /\ Out([call |-> c, pre |-> Conf(user, form, base), post |-> Conf(user', form', base'),
           ret |-> ret',
@@ -77,8 +81,17 @@ Step(act, c) ==
           afterreg |-> IF mut THEN {[k |-> k, adm |-> RegAdm(user', form', base', k, Absent, Absent)] :
                                       k \in RegReads} ELSE {},
           dev |-> IF mut THEN DevAfter(user', form', base') ELSE {},
-          devkey |-> IF c.op = "read" THEN DevKey(user, form, c.k) ELSE "",
-          devret |-> IF c.op = "read" THEN DevAdm(user, form, base, c.k) ELSE {}])
+          \* after a change: what get_component_dirs() may answer next
+          afterdirs |-> IF mut /\ CompReads
+                        THEN {[inc |-> inc, adm |-> ComponentDirs(user', form', base', FS, Apps, inc),
+                               devadm |-> DevComponentDirs(user', form', base', FS, Apps, inc)] : inc \in BOOLEAN}
+                        ELSE {},
+          devkey |-> CASE c.op = "read" -> DevKey(user, form, c.k)
+                       [] c.op = "compdirs" -> DevDirsKey(user, form, base, FS)
+                       [] OTHER -> IF mut /\ CompReads THEN DevDirsKey(user', form', base', FS) ELSE "",
+          devret |-> CASE c.op = "read" -> DevAdm(user, form, base, c.k)
+                       [] c.op = "compdirs" -> DevComponentDirs(user, form, base, FS, Apps, c.v.b)
+                       [] OTHER -> {}])
 
 MCNext ==
   \/ \E k \in GKeys : \E v \in ValsOf(k) : v # user[k] /\ Step(Set(k, v), Call("set", k, v, Absent, ""))
@@ -89,13 +102,15 @@ MCNext ==
   \/ \E k \in ReadAccs : Step(Read(k), Call("read", k, Absent, Absent, ""))
   \/ \E k \in RegReads : \E own \in RegOwnVals(k), old \in RegOwnVals(k) :
         Step(RegRead(k, own, old), Call("regread", k, own, old, ""))
+  \/ (CompReads /\ \E inc \in BOOLEAN : Step(CompDirs(FS, Apps, inc), Call("compdirs", "", B(inc), Absent, "")))
 MCSpec == MCInit /\ [][MCNext]_mcVars
 
 (* ---- invariants (every settings state) ------------------------------------ *)
 TypeOK == /\ WellFormed(user, form) /\ form \in Forms /\ base \in Bases
           /\ \A k \in Keys \ GKeys : ~Given(user, k)
           /\ \A k \in GKeys : Given(user, k) => user[k] \in ValsOf(k)
-Theorems == /\ DefaultsWhenEmpty /\ FormIndependent /\ DeterminedUnlessAmbiguous /\ GivenWins
+Theorems == /\ (CompReads => DirsTheorems(FS, Apps))
+            /\ DefaultsWhenEmpty /\ FormIndependent /\ DeterminedUnlessAmbiguous /\ GivenWins
             /\ EmptyIsAValue /\ ContextBehaviorClosed /\ AliasEquivalent
 
 (* ---- action properties (every transition) ---------------------------------- *)
@@ -103,7 +118,10 @@ Theorems == /\ DefaultsWhenEmpty /\ FormIndependent /\ DeterminedUnlessAmbiguous
 ReadIsResolve == [][/\ last'.op = "read" => ret' = Adm(user, form, base, last'.k) /\ ret' # {}
                     /\ last'.op = "regread" =>
                          ret' = RegAdm(user, form, base, last'.k, last'.v, last'.w) /\ ret' # {}
-                    /\ last'.op \in {"read", "regread"} => user' = user /\ form' = form /\ base' = base]_mcVars
+                    /\ last'.op = "compdirs" =>
+                         ret' = ComponentDirs(user, form, base, FS, Apps, last'.v.b) /\ ret' # {}
+                    /\ last'.op \in {"read", "regread", "compdirs"} =>
+                         user' = user /\ form' = form /\ base' = base]_mcVars
 LocalityProp == [][last'.op \in {"set", "unset"} => Locality(last'.k)]_mcVars
 \* the value just given is what the next read may return (valid values; None and context_behavior are normalised)
 SetThenRead == [][(last'.op = "set" /\ last'.v.t # "none" /\ last'.k # "context_behavior")
@@ -122,7 +140,8 @@ SNext == /\ \/ \E k \in GKeys : \E v \in ValsOf(k) : ~Given(user, k) /\ Set(k, v
 SSpec == MCInit /\ [][SNext]_mcVars
 
 CompileCounts == {1, 3, 140, 160}
-MayFail == \E k \in Accessors : \E x \in Adm(user, form, base, k) : x.t = "error"
+MayFail == \/ \E k \in Accessors : \E x \in Adm(user, form, base, k) : x.t = "error"
+           \/ DirsMayFail(user, form, base)
 ExportStartup ==
   Out([conf |-> Conf(user, form, base),
        dyn |-> DynamicNames(user, form, base),
